@@ -1,10 +1,30 @@
 (* Lmmm/Base.v — induction principles, top-level mirrors of the local fixpoints, word/leaves lemmas *)
 From Coq Require Import List ZArith NArith Bool Lia.
-From Mimium Require Import StateTree.Model StateTree.Lemmas Lmmm.Syntax Lmmm.Ref Lmmm.Compile Lmmm.Machine Lmmm.Wf Lmmm.Spec.
+From Mimium Require Import StateTree.Model Lmmm.Syntax Lmmm.Ref Lmmm.Compile Lmmm.Machine Lmmm.Wf Lmmm.Spec.
 Import ListNotations.
 Local Open Scope N_scope.
 
 (* ---------- nested induction principles ---------- *)
+Section SkelInd.
+  Variable P : skel -> Prop.
+  Hypothesis HD : forall l, P (Delay l).
+  Hypothesis HM : forall n, P (Mem n).
+  Hypothesis HF : forall n, P (Feed n).
+  Hypothesis HC : forall cs, Forall P cs -> P (FnCall cs).
+  Fixpoint skel_ind_l (s : skel) : P s :=
+    match s with
+    | Delay l => HD l
+    | Mem n => HM n
+    | Feed n => HF n
+    | FnCall cs =>
+        HC cs ((fix go (l : list skel) : Forall P l :=
+                  match l with
+                  | [] => Forall_nil P
+                  | x :: xs => Forall_cons x (skel_ind_l x) (go xs)
+                  end) cs)
+    end.
+End SkelInd.
+
 Section ExprInd.
   Variable P : expr -> Prop.
   Hypothesis HLit : forall z, P (ELit z).
@@ -283,7 +303,7 @@ Qed.
 
 Lemma leaves_bound : forall sk lo s pos, In (s, pos) (leaves sk lo) -> lo <= pos /\ pos + size s <= lo + size sk.
 Proof.
-  induction sk as [l|n|n|cs IH] using skel_ind'; intros lo s pos Hin;
+  induction sk as [l|n|n|cs IH] using skel_ind_l; intros lo s pos Hin;
     try (cbn [leaves In] in Hin; destruct Hin as [Hin|[]]; inversion Hin; subst; lia).
   rewrite leaves_FnCall in Hin. rewrite size_FnCall_skels.
   revert lo Hin. induction IH as [|c cs Hc _ IHcs]; intros lo Hin.
@@ -324,8 +344,7 @@ Proof. intros. exact I. Qed.
 Lemma event_at_pop : forall sk lo p s, event_at sk lo (4, p, s).
 Proof. intros. exact I. Qed.
 
-(* ---------- the compile-time context ---------- *)
-Definition eff (c : cctx) : N := snd c + match fst c with Some o => o | None => 0 end.
+(* ---------- the compile-time context: `eff` (push_sum + pending offset) lives in Spec.v ---------- *)
 
 (* ---------- the run invariant ---------- *)
 Definition run_ok (lo hi pos' : N) (P : N * N * N -> Prop) (m m' : mstate) : Prop :=
